@@ -679,6 +679,22 @@ pub fn query<A: HC>(q: &str, t: &mut Toks) -> R<String> {
                     _ => vec![],
                 })
             }
+            if ad == "collectseq" {
+                // collect what is left of a partially consumed symbol iterator into a new sequence
+                return eval_s::<A, _>(&s, &mut |x| {
+                    let mut it = x.iter();
+                    for _ in 0..arg {
+                        let _ = it.next();
+                    }
+                    let rest: Seq<A> = it.collect();
+                    let mut it2 = x.rev_iter();
+                    for _ in 0..arg {
+                        let _ = it2.next();
+                    }
+                    let rest2: Seq<A> = it2.collect();
+                    Ok(format!("{} | {}", show(&rest), show(&rest2)))
+                });
+            }
             eval_s::<A, _>(&s, &mut |x| {
                 Ok(match kind.as_str() {
                     "windows" => match run(x.windows(w), &ad, arg) { Ok(v) => slices(v.into_iter()), Err(n) => n.to_string() },
